@@ -6,6 +6,7 @@ import (
 
 	"github.com/gofiber/fiber/v3"
 	"github.com/gofiber/fiber/v3/middleware/encryptcookie"
+	recoverer "github.com/gofiber/fiber/v3/middleware/recover"
 	"github.com/valyala/fasthttp"
 )
 
@@ -33,5 +34,21 @@ func TestF16_DuplicateCookieNames(t *testing.T) {
 		if strings.Contains(s, "ATTACKER") {
 			t.Fatalf("unauthenticated cookie text reached the handler: %v", seen)
 		}
+	}
+}
+
+// F32: a handler that set a cookie and then panicked — with the recover middleware in front of
+// encryptcookie — sent the cookie in clear: the encryption pass only ran after a normal return.
+func TestF32_CookieSetBeforePanicIsEncrypted(t *testing.T) {
+	app := fiber.New()
+	app.Use(recoverer.New())
+	app.Use(encryptcookie.New(encryptcookie.Config{Key: encryptcookie.GenerateKey(32)}))
+	app.Get("/", func(c fiber.Ctx) error {
+		c.Cookie(&fiber.Cookie{Name: "sid", Value: "secret-session-id"})
+		panic("boom")
+	})
+	rc := do(app, "GET", "/")
+	if v := string(rc.Response.Header.PeekCookie("sid")); strings.Contains(v, "secret-session-id") {
+		t.Fatalf("status %d, Set-Cookie carries the plaintext: %q", rc.Response.StatusCode(), v)
 	}
 }
